@@ -19,6 +19,25 @@ bool h_csv_roundtrip(const char* sym, unsigned long len, char delim, bool rfc, c
     *outlen = element.n; *start_out = start;
     return true;
 }
+// nested symbol: "[" + outputSymbol(v, fieldValue=false) + "]" inside an RFC 4180 quoted field, read back through nextElement and readQuotedSymbol
+bool h_csv_nested(const char* sym, unsigned long len, char* out, unsigned long* outlen, unsigned long* consumed) {
+    std::string value;
+    for (unsigned long i = 0; i < len; i = i + 1) value.push_back(sym[i]);
+    CSVWriterScaffold w; w.rfc4180 = true;
+    std::ostream os;
+    os << '"'; os << '[';
+    w.outputSymbol(os, value, false);
+    os << ']'; os << '"';
+    std::string line = os.buf;
+    CSVReaderScaffold r; r.rfc4180 = true; r.lineNumber = 1; r.delimiter.push_back(',');
+    std::size_t start = 0; bool wasCRLF = false;
+    std::string element = r.nextElement(line, start, wasCRLF);       // "[" quoted-symbol "]"
+    std::size_t used = 0;
+    std::string back = r.readQuotedSymbol(element, 1, &used);
+    for (unsigned long i = 0; i < back.n; i = i + 1) out[i] = back.d[i];
+    *outlen = back.n; *consumed = used + 2 == element.n ? 1 : 0;      // '[' + symbol text + ']' is the whole element
+    return true;
+}
 // C18: one call of nextElement on an arbitrary line
 bool h_nextElement(const char* text, unsigned long len, unsigned long start_in, char delim, bool rfc, unsigned long* outlen, unsigned long* start_out) {
     std::string line;
